@@ -76,6 +76,10 @@ def definitions(tier: str, seed: int, want: dict[str, int]) -> list[dict]:
         for i, ast in enumerate(gen.loop_end_nested_fork_family()):
             defs.append({"name": f"lenf{i}", "kind": "loop-families", "ast": ast,
                          "tags": sorted(gen.tags_of(ast) | {"F_edge", "loop-ends-in-nested-fork"})})
+        for i, ast in enumerate(gen.two_break_xors_family()):
+            t = gen.tags_of(ast)
+            defs.append({"name": f"l2bx{i}", "kind": "loop-families", "ast": ast,
+                         "tags": sorted(t | {gen.stratum_of(t), "two-break-xors"})})
     if want.get("start-block", 0):
         for i, ast in enumerate(gen.break_xor_start_block_family()):
             defs.append({"name": f"bxsb{i}", "kind": "start-block", "ast": ast,
